@@ -38,6 +38,7 @@ REWRITES = {
     'R2c': 'format! whose template has only `{}` / `{ident}` placeholders becomes the concatenation of its literal pieces and of the Display strings of its arguments (str, String, Cow<str>): vx_cat(vx_lit(..), VxS::vx_s(&arg)) -- used where the formatted string is a key the property depends on',
     'R1b': '`unreachable!(\"..\", args)` / `panic!(\"..\", args)` lose their message and become `unreachable!()` (the arm stays an obligation: it must be proved unreachable)',
     'R23': 'a field of type RwLock<T> is given the type T and `self.F.write().unwrap()` / `self.F.read().unwrap()` become `&mut self.F` / `&self.F` (receiver &self -> &mut self, R7): the lock guard held to the end of the block is the exclusive / shared borrow of the protected value; single-task semantics only, no claim about interleavings or lock poisoning',
+    'R24': 'a provided (default-bodied) trait method is lifted out of its trait into a free generic function (`fn f(&mut self, ..)` of `trait T` -> `fn f<A: T>(vx_self: &mut A, ..)`, `Self` -> `A`, `self` -> `vx_self`) so that its contract can use spec functions that are generic over the trait (Verus rejects those inside the trait: cyclic definition); in the extracted trait declaration the method loses its body and is a required method; a verification of THE method as long as no implementor overrides it',
     'R22': 'by-value receiver `mut self` becomes `self` with `let mut vx_self = self;` first in the body and every `self` of the body renamed (Verus does not support `mut self`; the binding mode of a by-value parameter is not part of the interface)',
     'R12': 'derive(Default) expanded to the field-wise impl the derive generates (inside verus!, verified, not assumed)',
 }
@@ -481,7 +482,8 @@ pub assume_specification [<{q} as PartialEq>::eq] (a: &{q}, b: &{q}) -> (r: bool
             self._rw('R11')
             gparams = [g.strip() for g in generics.strip('<>').split(',') if g.strip()] if generics else []
             gnames = [g.split(':')[0].strip() for g in gparams]
-            gdecl = ('<' + ', '.join(f'{g}: Clone' for g in gnames) + '>') if gnames else ''
+            # a type parameter keeps the bounds the type declares for it (the derive adds `Clone` to them)
+            gdecl = ('<' + ', '.join((g + ' + Clone') if ':' in g else f'{g}: Clone' for g in gparams) + '>') if gnames else ''
             guse = ('<' + ', '.join(gnames) + '>') if gnames else ''
             if what == 'struct':
                 fields = e['fields']
@@ -511,7 +513,7 @@ pub assume_specification [<{q} as PartialEq>::eq] (a: &{q}, b: &{q}) -> (r: bool
     # ---------- functions ----------
     def fn(self, path, impl, fn, requires=(), ensures=(), loops=None, ghost=(), subst=(), trait=None,
            erase_async=False, mut_self=False, ret_name='r', decreases=None, keep_macros=(), external_body=False,
-           let_chains=True, fmt=True, hash_loops=(), vis='pub', recommends=(), trait_full=None, keep_arms=None, as_inherent=False, copied_loops=(), eta=(), closures=None, continue_guards=(), deref_loops=(), attrs=(), clone_loops=(), into_values_loops=(), unlock=()):
+           let_chains=True, fmt=True, hash_loops=(), vis='pub', recommends=(), trait_full=None, keep_arms=None, as_inherent=False, copied_loops=(), eta=(), closures=None, continue_guards=(), deref_loops=(), attrs=(), clone_loops=(), into_values_loops=(), unlock=(), lift_default=None):
         """Extract one fn verbatim and splice its contract.  Returns a list of Seg (to be put in an impl block).
         requires/ensures: list of (name, text).  loops: {ordinal: dict(invariant=[(name,text)], decreases=text, iter='vx_it')}
         ghost: list of (anchor, text) with anchor in ('body_start',), ('body_end',), ('loop_start',k), ('loop_end',k),
@@ -612,6 +614,29 @@ pub assume_specification [<{q} as PartialEq>::eq] (a: &{q}, b: &{q}) -> (r: bool
             for s, t in e['awaits']:
                 edits.append((s, t, []))
                 self._rw('R10')
+        # R24: a provided (default-bodied) trait method lifted out of its trait into a free generic function: `fn f(&mut self, ..)`
+        # of `trait T` becomes `fn f<A: T>(vx_self: &mut A, ..)`, every `Self` becomes `A` and every `self` of the body `vx_self`
+        # (lift_default = ('A', 'A: T')); sound as a verification of THE method when no implementor overrides it
+        if lift_default:
+            ty24, bound24 = lift_default
+            sig24 = src[e['sig'][0]:e['sig'][1]].decode()
+            m24 = re.search(r'\bfn\s+' + re.escape(fn) + r'\b', sig24)
+            if not m24 or src[e['generics'][0]:e['generics'][1]].decode().strip():
+                raise ToolLimit(f'{fn}: R24 wants a method without generics of its own')
+            g24 = e['sig'][0] + len(sig24[:m24.end()].encode())
+            edits.append((g24, g24, [Seg(f'<{bound24}>')]))
+            i0, i1 = e['inputs'][0]
+            rc24 = src[i0:i1].decode().replace(' ', '')
+            if rc24 not in ('&self', '&mutself', 'self'):
+                raise ToolLimit(f'{fn}: R24 wants a self receiver')
+            edits.append((i0, i1, [Seg({'&self': f'vx_self: &{ty24}', '&mutself': f'vx_self: &mut {ty24}', 'self': f'vx_self: {ty24}'}[rc24])]))
+            whole24 = src[e['sig'][0]:be].decode()
+            for m in re.finditer(r'(?<![A-Za-z0-9_])(self|Self)(?![A-Za-z0-9_])', whole24):
+                p24 = e['sig'][0] + len(whole24[:m.start()].encode())
+                if i0 <= p24 < i1:
+                    continue
+                edits.append((p24, p24 + 4, [Seg('vx_self' if m.group(1) == 'self' else ty24)]))
+            self._rw('R24')
         # R22: by-value receiver with binding mode `mut self` (Verus: "mut self" unsupported) -> `self`, and the body works on
         # `let mut vx_self = self;` (every `self` token of the body renamed); the binding mode of a by-value parameter is not
         # part of the function's interface
@@ -889,12 +914,13 @@ pub assume_specification [<{q} as PartialEq>::eq] (a: &{q}, b: &{q}) -> (r: bool
                 cond = src[cs:ct].decode()
                 parts = [p.strip() for p in re.split(r'&&', cond)]
                 # only handle "let P = E && C..." with the let first
-                if not parts[0].startswith('let ') or any(p.startswith('let ') for p in parts[1:]):
+                if cond.count('(') != cond.count(')') or any(p.count('(') != p.count(')') for p in parts):
                     raise ToolLimit(f'{fn}: let-chain shape not supported by R5: {cond}')
+                # `if A && let P = E && C { T }` (no else) == `if A { if let P = E { if C { T } } }`
                 ts, tt = lc['then']
                 edits.append((cs, ct, [Seg(parts[0])]))
-                edits.append((ts + 1, ts + 1, [Seg(' if ' + ' && '.join(parts[1:]) + ' {')]))
-                edits.append((tt - 1, tt - 1, [Seg('} ')]))
+                edits.append((ts + 1, ts + 1, [Seg(''.join(' if ' + p + ' {' for p in parts[1:]))]))
+                edits.append((tt - 1, tt - 1, [Seg('} ' * len(parts[1:]))]))
                 self._rw('R5')
         # R6 on match arms: arms whose pattern names a variant that was dropped from the enum are dropped with it;
         # the remainder of the enum is the single variant VxOther, whose arm is `unreachable!()` (so the contract must
@@ -1186,12 +1212,12 @@ pub assume_specification [<{q} as PartialEq>::eq] (a: &{q}, b: &{q}) -> (r: bool
                 raise ToolLimit(f'{fn}: let-chain with else (R5 does not apply)')
             cond = src[cs:ct].decode()
             parts = [pp.strip() for pp in re.split(r'&&', cond)]
-            if not parts[0].startswith('let ') or any(pp.startswith('let ') for pp in parts[1:]):
+            if cond.count('(') != cond.count(')') or any(pp.count('(') != pp.count(')') for pp in parts):
                 raise ToolLimit(f'{fn}: let-chain shape not supported by R5: {cond}')
             ts, tt = lc['then']
             edits.append((cs, ct, [Seg(parts[0])]))
-            edits.append((ts + 1, ts + 1, [Seg(' if ' + ' && '.join(parts[1:]) + ' {')]))
-            edits.append((tt - 1, tt - 1, [Seg('} ')]))
+            edits.append((ts + 1, ts + 1, [Seg(''.join(' if ' + pp + ' {' for pp in parts[1:]))]))
+            edits.append((tt - 1, tt - 1, [Seg('} ' * len(parts[1:]))]))
             self._rw('R5')
         if inline:
             edits += self._inline_edits(src, lo, hi, e.get('impl'))
@@ -1369,7 +1395,7 @@ pub assume_specification [<{q} as PartialEq>::eq] (a: &{q}, b: &{q}) -> (r: bool
         self.extracted.append((path, f'statement #{k} of fn {(impl + "::") if impl else ""}{fn} [one statement]'))
         return segs
 
-    def closure_fn(self, path, impl, fn, k, name, sig, requires=(), ensures=(), trait=None, ghost_start='', ghost_end='', inner_closures=None):
+    def closure_fn(self, path, impl, fn, k, name, sig, requires=(), ensures=(), trait=None, ghost_start='', ghost_end='', inner_closures=None, attrs=(), loops=None, ghost=(), subst=()):
         """R15: the body of the k-th closure of a krill fn, verbatim, as a standalone fn `name sig`; sig must name the closure's
         own parameters and the variables it captures, e.g. '(other: &ConfiguredRoa, roa: &ConfiguredRoa) -> (r: bool)'."""
         kw = {'fn': fn}
@@ -1384,7 +1410,7 @@ pub assume_specification [<{q} as PartialEq>::eq] (a: &{q}, b: &{q}) -> (r: bool
         cbs, cbt = C['body']
         fid = f'{self.prop}.{self.name}.{(impl + "::") if impl else ""}{fn}.closure{k}'
         clause_list = []
-        segs = [Seg(f'/*VXFN {fid}*/ pub fn {name}{sig}\n/*VXC*/\n')]
+        segs = [Seg(f'/*VXFN {fid}*/ ' + ''.join(a_ + ' ' for a_ in attrs) + f'pub fn {name}{sig}\n/*VXC*/\n')]
         for kind, items in (('requires', requires), ('ensures', ensures)):
             if not items:
                 continue
@@ -1400,6 +1426,50 @@ pub assume_specification [<{q} as PartialEq>::eq] (a: &{q}, b: &{q}) -> (r: bool
         segs += self._ghost_segs(ghost_start, fid, clause_list)
         edits = self._inner_edits(src, e, cbs, cbt, fn)
         edits += self._nested_closure_edits(src, e, cbs, cbt, inner_closures, fid, clause_list, fn, strict_inside=True)
+        # loops of the enclosing fn that lie inside the closure, numbered in source order among those: invariants as in fn()
+        inner_loops = [L for L in e['loops'] if cbs <= L['body'][0] and L['body'][1] <= cbt]
+        for k_, lspec in (loops or {}).items():
+            if k_ >= len(inner_loops):
+                raise LostAnchor(f'{fn}: closure #{k}: loop #{k_} not found ({len(inner_loops)} loops)')
+            L = inner_loops[k_]
+            lsegs = [Seg('\n            invariant\n')] if lspec.get('invariant') else [Seg('\n')]
+            for nm, text in lspec.get('invariant', []):
+                cid = f'{fid}.loop{k_}.{nm}'
+                self.clauses[cid] = {'kind': 'invariant', 'fn': fid, 'text': ' '.join(text.split())}
+                clause_list.append(cid)
+                lsegs += [Seg('                '), Seg(text, clause=cid, fn=fid), Seg(',\n')]
+            if lspec.get('decreases'):
+                lsegs.append(Seg(f'            decreases {lspec["decreases"]},\n'))
+            edits.append((L['body'][0], L['body'][0], lsegs))
+        whole_c = src[cbs:cbt].decode()
+        for anchor, text in ghost:
+            if anchor[0] == 'loop_start':
+                L = inner_loops[anchor[1]]
+                edits.append((L['body'][0] + 1, L['body'][0] + 1, self._ghost_segs('\n' + text + '\n', fid, clause_list)))
+            elif anchor[0] in ('before', 'after'):
+                lit, occ = anchor[1], anchor[2]
+                pos = -1
+                for _ in range(occ + 1):
+                    pos = whole_c.find(lit, pos + 1)
+                    if pos < 0:
+                        raise LostAnchor(f'{fn}: closure #{k}: ghost anchor {lit!r} occurrence {occ} not found')
+                at = cbs + len(whole_c[:pos].encode()) + (len(lit.encode()) if anchor[0] == 'after' else 0)
+                edits.append((at, at, self._ghost_segs('\n' + text + '\n', fid, clause_list)))
+        for sub_c in subst:
+            old_c, new_c, tag_c = sub_c[:3]
+            every_c = len(sub_c) > 3 and sub_c[3] == 'all'
+            n_c = whole_c.count(old_c)
+            if (n_c != 1 and not every_c) or n_c == 0:
+                raise LostAnchor(f'{fn}: closure #{k}: subst anchor {old_c!r} matches {n_c} times')
+            pos_c = -1
+            for _ in range(n_c):
+                pos_c = whole_c.find(old_c, pos_c + 1)
+                i_c = cbs + len(whole_c[:pos_c].encode())
+                j_c = i_c + len(old_c.encode())
+                edits = [x for x in edits if not (i_c <= x[0] and x[1] <= j_c and x[0] < x[1])]
+                edits.append((i_c, j_c, [Seg(new_c)]))
+                if tag_c:
+                    self._rw(tag_c)
         segs += _apply_edits(src, cbs, cbt, edits)
         segs.append(Seg('\n' + ghost_end + '}'))
         segs.append(Seg(f' /*VXEND {fid}*/\n'))
@@ -1414,7 +1484,7 @@ pub assume_specification [<{q} as PartialEq>::eq] (a: &{q}, b: &{q}) -> (r: bool
         self.extracted.append((path, f'closure #{k} of fn {(impl + "::") if impl else ""}{fn} [body only]'))
         return segs
 
-    def trait(self, path, name, methods=None, spec=''):
+    def trait(self, path, name, methods=None, spec='', loops=None, ghost=None, subst=(), drop_bodies=()):
         """Extract a trait declaration verbatim; methods: {fn name: [(clause name, ensures text)]} spliced before the `;`
         of the method declaration; spec: extra `spec fn` declarations inserted at the start of the trait body."""
         src, e = find(path, 'trait', trait=name)
@@ -1443,8 +1513,41 @@ pub assume_specification [<{q} as PartialEq>::eq] (a: &{q}, b: &{q}) -> (r: bool
                         segs += [Seg('            '), Seg(text, clause=cid, fn=tid), Seg(',\n')]
                     end = m['sig'][1]
                     edits.append((end, end, segs))
-        if e['vis'] is None:
-            pass
+                if m['fn'] in drop_bodies:
+                    if m.get('body') is None:
+                        raise LostAnchor(f'trait {name}::{m["fn"]}: no provided body to drop')
+                    edits.append((m['body'][0], m['body'][1], [Seg(';')]))
+                    self._rw('R24')
+                    continue
+                # a provided (default-bodied) method: loop invariants and ghost blocks as in fn()
+                for k, lspec in ((loops or {}).get(m['fn']) or {}).items():
+                    if k >= len(m.get('loops') or []):
+                        raise LostAnchor(f'trait {name}::{m["fn"]}: loop #{k} not found')
+                    L = m['loops'][k]
+                    lsegs = [Seg('\n            invariant\n')]
+                    for nm, text in lspec.get('invariant', []):
+                        cid = f'{tid}::{m["fn"]}.loop{k}.{nm}'
+                        self.clauses[cid] = {'kind': 'invariant', 'fn': tid, 'text': ' '.join(text.split())}
+                        lsegs += [Seg('                '), Seg(text, clause=cid, fn=tid), Seg(',\n')]
+                    edits.append((L['body'][0], L['body'][0], lsegs))
+                    if lspec.get('iter') and L['kind'] == 'for':
+                        edits.append((L['expr'][0], L['expr'][0], [Seg(lspec['iter'] + ': ')]))
+                for anchor, text in ((ghost or {}).get(m['fn']) or []):
+                    if anchor[0] == 'loop_start':
+                        L = m['loops'][anchor[1]]
+                        edits.append((L['body'][0] + 1, L['body'][0] + 1, [Seg('\n' + text + '\n')]))
+                    elif anchor[0] == 'body_end':
+                        edits.append((m['body'][1] - 1, m['body'][1] - 1, [Seg('\n' + text + '\n')]))
+                    elif anchor[0] == 'body_start':
+                        edits.append((m['body'][0] + 1, m['body'][0] + 1, [Seg('\n' + text + '\n')]))
+        whole_t = src[a:b].decode()
+        for old_t, new_t, tag_t in subst:
+            if whole_t.count(old_t) != 1:
+                raise LostAnchor(f'trait {name}: subst anchor {old_t!r} matches {whole_t.count(old_t)} times')
+            i_t = len(whole_t[:whole_t.index(old_t)].encode()) + a
+            edits.append((i_t, i_t + len(old_t.encode()), [Seg(new_t)]))
+            if tag_t:
+                self._rw(tag_t)
         segs = _apply_edits(src, a, b, edits)
         self.inside.extend(segs)
         self.inside.append(Seg('\n'))
